@@ -169,6 +169,11 @@ def enum_units(tier, seed):
                   {"k": "scope", "n": "sc_u", "b": [{"k": "const", "n": "Kx_v", "e": L(5), "eager": True}, db(["id", "kx_v"], ["id", "Kx_v"]), {"k": "const", "n": "KX_V", "e": L(0x1234), "eager": False}, dl("KX_V", "kx_v")]},
                   {"k": "macro", "n": "m_u", "ps": ["Kx_v"], "b": [db(["id", "kx_v"], ["id", "Kx_v"])]}, {"k": "call", "n": "m_u", "args": [L(3)]},
                   {"k": "for", "v": "I_0", "lo": L(1), "hi": L(3), "b": [db(["id", "i_0"], ["id", "I_0"])]}, dl("sc_u.Kx_v", "lb_loop")])
+    # a named scope written directly in a loop body exports into the iteration only: a scope of the same name outside the loop keeps
+    # its own members
+    extra.append([org, {"k": "scope", "n": "sc_l", "b": [lab("lb_x"), db(L(1))]}, dl("sc_l.lb_x"),
+                  {"k": "for", "v": "i_0", "lo": L(0), "hi": L(2), "b": [db(L(0xF0)), {"k": "scope", "n": "sc_l", "b": [db(L(2)), lab("lb_x"), {"k": "const", "n": "k_x", "e": L(7), "eager": True}]}, dl("sc_l.lb_x")]},
+                  dl("sc_l.lb_x"), {"k": "block", "b": [{"k": "for", "v": "i_1", "lo": L(0), "hi": L(1), "b": [{"k": "scope", "n": "sc_l", "b": [db(L(3)), lab("lb_x")]}]}, dl("sc_l.lb_x")]}])
     for i, ir in enumerate(extra):
         cases.append({"rom": "low", "files": {}, "ir": ir, "twin_seed": 100 + i})
     return {"units": [{"cases": cases[i::8]} for i in range(8)], "exhaustive": False}
